@@ -294,7 +294,23 @@ theorem mk_ok (coords : List V3) (cs : Rat) (box : Option V3) (sel : Option (Lis
 
 /-! ## batches, scalar vs per-query radii, adjacency plumbing -/
 
+theorem any_huge_false {α : Type} (f : α → Int) (l : List α) (h : ∀ r ∈ l, f r < 2 ^ 31) :
+    (l.map f).any (fun r => decide (r ≥ 2 ^ 31)) = false := by
+  simp only [List.any_eq_false, List.mem_map, decide_eq_true_eq, not_le, forall_exists_index, and_imp,
+    forall_apply_eq_imp_iff₂]
+  exact h
+
+theorem wrappedAnswer_rows (c : CL) (sc : CL → V3 → Int → List (V3 × Nat)) (qs : List V3) (crs : List Int)
+    (m : Int) (rows rows' : List (List Nat)) (h : c.wrappedAnswer sc qs crs m rows = some (.ok rows')) : rows' = rows := by
+  unfold CL.wrappedAnswer at h
+  split at h
+  · simp only [Option.some.injEq, Except.ok.injEq] at h; exact h.symm
+  · simp at h
+
+/-- Whenever the batch answers (radii within int32 cell radii), row `i` is `atomsOne` of query `i` —
+also when the result-buffer length wrapped to a still sufficient positive value. -/
 theorem atomsBatch_rows (c : CL) (qs : List V3) (rad : Rad Rat) (rows : List (List Nat))
+    (hsmall : ∀ r ∈ rad.expand qs.length, c.cellRadius r < 2 ^ 31)
     (h : c.atomsBatch qs rad = some (.ok rows)) :
     rows = (qs.zip (rad.expand qs.length)).map (fun qr => c.atomsOne qr.1 qr.2) := by
   unfold CL.atomsBatch CL.atomsBatchWith at h
@@ -305,15 +321,16 @@ theorem atomsBatch_rows (c : CL) (qs : List V3) (rad : Rad Rat) (rows : List (Li
   · split at h
     · simp at h
     · simp only at h
+      rw [any_huge_false c.cellRadius _ hsmall] at h
+      simp only [Bool.false_eq_true, if_false] at h
       split at h
+      · simp only [Option.some.injEq, Except.ok.injEq] at h
+        rw [← h]; rfl
       · simp at h
-      · split at h
-        · simp only [Option.some.injEq, Except.ok.injEq] at h
-          rw [← h]; rfl
-        · simp at h
-        · simp at h
+      · exact wrappedAnswer_rows c _ qs _ _ _ rows h
 
 theorem cellsBatch_rows (c : CL) (qs : List V3) (rad : Rad Int) (rows : List (List Nat))
+    (hsmall : ∀ r ∈ rad.expand qs.length, r < 2 ^ 31)
     (h : c.cellsBatch qs rad = some (.ok rows)) :
     rows = (qs.zip (rad.expand qs.length)).map (fun qr => c.cellsOne qr.1 qr.2) := by
   unfold CL.cellsBatch CL.cellsBatchWith at h
@@ -324,13 +341,42 @@ theorem cellsBatch_rows (c : CL) (qs : List V3) (rad : Rad Int) (rows : List (Li
   · split at h
     · simp at h
     · simp only at h
+      have hany := any_huge_false (fun r : Int => r) _ hsmall
+      rw [List.map_id'] at hany
+      rw [hany] at h
+      simp only [Bool.false_eq_true, if_false] at h
       split at h
+      · simp only [Option.some.injEq, Except.ok.injEq] at h
+        rw [← h]; rfl
       · simp at h
-      · split at h
-        · simp only [Option.some.injEq, Except.ok.injEq] at h
-          rw [← h]; rfl
-        · simp at h
-        · simp at h
+      · exact wrappedAnswer_rows c _ qs _ _ _ rows h
+
+/-- A scalar radius whose cell radius does not fit int32 is refused (`OverflowError`), never answered. -/
+theorem atomsBatch_scalar_huge (c : CL) (qs : List V3) (r : Rat) (hq : qs ≠ []) (hr : 0 ≤ r)
+    (hh : 2 ^ 31 ≤ c.cellRadius r) : c.atomsBatch qs (.scalar r) = some (.error .overflowError) := by
+  unfold CL.atomsBatch CL.atomsBatchWith
+  have he : qs.isEmpty = false := by simpa using hq
+  have hchk : (Rad.scalar r).check qs.length (fun r => decide (r < 0)) = .ok () := by
+    simp [Rad.check, not_lt.mpr hr]
+  have hpos : 0 < qs.length := List.length_pos_iff.mpr hq
+  have hany : (List.map c.cellRadius ((Rad.scalar r).expand qs.length)).any (fun r => decide (r ≥ 2 ^ 31)) = true := by
+    refine List.any_eq_true.mpr ⟨c.cellRadius r, ?_, by simpa using hh⟩
+    simp only [Rad.expand, List.map_replicate, List.mem_replicate]
+    exact ⟨hpos.ne', trivial⟩
+  simp only [he, hchk, hany]
+  rfl
+
+theorem atomsBatch_scalar_small (c : CL) (qs : List V3) (r : Rat) (rows : List (List Nat)) (hq : qs ≠ [])
+    (h : c.atomsBatch qs (.scalar r) = some (.ok rows)) : c.cellRadius r < 2 ^ 31 := by
+  by_cases hr : 0 ≤ r
+  · by_contra hc
+    rw [atomsBatch_scalar_huge c qs r hq hr (not_lt.mp hc)] at h
+    simp at h
+  · exfalso
+    have hneg : r < 0 := not_le.mp hr
+    have he : qs.isEmpty = false := by simpa using hq
+    unfold CL.atomsBatch CL.atomsBatchWith at h
+    simp [he, Rad.check, hneg] at h
 
 /-- A successful batch had non-negative radii (`_prepare_vectorization` rejects the others). -/
 theorem atomsBatch_nonneg (c : CL) (qs : List V3) (rad : Rad Rat) (rows : List (List Nat))
@@ -376,7 +422,7 @@ theorem atomsBatch_ok (c : CL) (qs : List V3) (rad : Rad Rat) (hq : qs ≠ [])
   simp only [he, hchk, hany, hfit]
   rfl
 
-theorem scalar_eq_multi (c : CL) (qs : List V3) (r : Rat) :
+theorem scalar_eq_multi (c : CL) (qs : List V3) (r : Rat) (hsmall : c.cellRadius r < 2 ^ 31) :
     c.atomsBatch qs (.scalar r) = c.atomsBatch qs (.multi (List.replicate qs.length r)) := by
   unfold CL.atomsBatch CL.atomsBatchWith
   by_cases he : qs.isEmpty = true
@@ -389,7 +435,9 @@ theorem scalar_eq_multi (c : CL) (qs : List V3) (r : Rat) :
       by_cases hr : r < 0
       · simp [hr, List.any_replicate, hpos.ne']
       · simp [hr, List.any_replicate]
-    simp only [hchk, Rad.expand]
+    have hany : (List.map c.cellRadius (List.replicate qs.length r)).any (fun r => decide (r ≥ 2 ^ 31)) = false :=
+      any_huge_false c.cellRadius _ (by intro x hx; rw [(List.mem_replicate.mp hx).2]; exact hsmall)
+    simp only [hchk, Rad.expand, hany]
     rfl
 
 theorem zip_replicate_map {β : Type} (f : V3 → Rat → β) (qs : List V3) (r : Rat) :
@@ -757,7 +805,16 @@ theorem adjacency_rows (c : CL) (thr : Rat) (rows : List (List Nat))
     split at ha
     · rename_i rows0 hb
       simp only [Option.some.injEq, Except.ok.injEq] at ha
-      have hrows0 := atomsBatch_rows c _ _ rows0 hb
+      have hsm : ∀ r ∈ (Rad.scalar thr).expand
+          (List.filterMap (fun ps : V3 × Bool => if ps.2 = true then some ps.1 else none)
+            ((List.take c.n c.coord).zip c.sel)).length, c.cellRadius r < 2 ^ 31 := by
+        intro r hr
+        simp only [Rad.expand, List.mem_replicate] at hr
+        have hq : (List.filterMap (fun ps : V3 × Bool => if ps.2 = true then some ps.1 else none)
+            ((List.take c.n c.coord).zip c.sel)) ≠ [] := by
+          intro h0; rw [h0] at hr; simp at hr
+        rw [hr.2]; exact atomsBatch_scalar_small c _ thr rows0 hq hb
+      have hrows0 := atomsBatch_rows c _ _ rows0 hsm hb
       simp only [Rad.expand] at hrows0
       rw [zip_replicate_map (fun q r => c.atomsOne q r)] at hrows0
       rw [hrows0, scatter_spec (fun q => c.atomsOne q thr) _ _ hlen] at ha
